@@ -55,7 +55,15 @@ pub fn form(v: &BigInt, which: usize, uniq: usize) -> (Option<String>, String, &
     let neg = v.is_negative();
     let mag = v.abs();
     let sign = if neg { "-" } else { "" };
-    match which % 7 {
+    match which % 8 {
+        7 if v.is_positive() => {
+            // the value as the short slice of a NEGATIVE unsized operand that fits the slice width:
+            // (0 - K)`W with W = bit length of v and K = 2^W - v is the W-bit pattern of v
+            let w = v.bits();
+            let k: BigInt = (BigInt::from(1) << (w as usize)) - v;
+            (None, format!("(0 - {})`{}", k, w), "slice-of-negative")
+        }
+        7 => (None, format!("{}{}", sign, mag.to_str_radix(10)), "dec"),
         6 => {
             // the value as the bitwise NOT of a SIZED literal (the result of an operator has no size of its own)
             let inner: BigInt = -v - 1;
@@ -283,7 +291,7 @@ pub fn run_values(kind: Kind, n: usize, values: &[BigInt], all_forms_at_boundari
     let mut rejected: Vec<(Option<String>, String, BigInt)> = Vec::new();
     let mut uniq = 0;
     for (i, v) in values.iter().enumerate() {
-        let forms: Vec<usize> = if all_forms_at_boundaries && near_boundary(n, v) { (0..7).collect() } else { vec![i % 6] };
+        let forms: Vec<usize> = if all_forms_at_boundaries && near_boundary(n, v) { (0..8).collect() } else { vec![i % 6] };
         for f in forms {
             uniq += 1;
             let (decl, text, _fname) = form(v, f, uniq);
@@ -392,7 +400,7 @@ impl Property for C04 {
     fn rule(&self) -> String {
         "ENUMERATED: type in {uN, sN, iN, #dN} x N in 0..=16 x every v in [-2^N-4, 2^N+4] (quick: complete for N <= 13, the +-4 neighbourhood of every boundary \
          -2^N, -2^(N-1), 0, 2^(N-1), 2^N for N = 14..16; thorough: complete for N <= 16), written in rotating forms (decimal, 0x, 0b, (v+1)-1, constant reference, hex \
-         with leading zeros; all of these plus the bitwise NOT of a sized literal within +-4 of a boundary); plus #dN with sized literals of every width 1..N+9. Oracle = the closed-form ranges of the \
+         with leading zeros; all of these plus the bitwise NOT of a sized literal and the short slice of a negative operand `(0 - K)`W` within +-4 of a boundary); plus #dN with sized literals of every width 1..N+9. Oracle = the closed-form ranges of the \
          statement: all in-range values of a chunk are assembled in one program whose output must be the concatenation of the N-bit two's-complement images; each \
          out-of-range value is assembled between two in-range neighbours and must give an error located on its own line and no output. RANDOM part: N in 17..=256, \
          values at each boundary +-0..4. Every case is non-trivial (it is the boundary table itself); distinct = distinct (type, N, chunk)."
